@@ -1038,7 +1038,10 @@ def _who_may_write(ctx, model):
                         ok = q in ALLOWED_SETATTR_FUNCS or own_post_init or \
                             cache_only or own_init or own_guard or (
                                 not is_node and tgt == "self"
-                                and not model.is_subclass(c, mapper_base))
+                                and (not model.is_subclass(c, mapper_base)
+                                     # a mapper's constructor setting up the
+                                     # mapper's own options
+                                     or name == "__init__"))
                         ctx.ob(f"O/setattr/{c.name}.{name}:{tgt}", ok,
                                m.loc(call),
                                f"allowed: {ALLOWED_SETATTR_FUNCS.get(q, 'own state of a non-node object')}"
